@@ -256,6 +256,9 @@ class Meta:
     def _flavour(self, v, t):
         rng = self.rng
         base = t.partition(':')[0]
+        if isinstance(v, list) and v and all(isinstance(x, float) for x in v) and rng.random() < 0.15:
+            # numpy float64 scalars (a subclass of float) as they come out of numpy computations, e.g. list(-np.linspace(0, 1, 3))
+            return [{'$npscalar': ['float64', x]} for x in v]
         if isinstance(v, list) and v and not any(isinstance(x, list) for x in v) and rng.random() < 0.1:
             return {'$tuple': v}
         if base in ('num', 'int') and isinstance(v, (int, float)) and not isinstance(v, bool) and rng.random() < 0.1:
